@@ -809,6 +809,77 @@ func c08shape(p *Prog, r *Report) {
 		}
 		return
 	}
+	// polarity: in the validating functions, the edge on which a watched position IS nil (or Parents does not have two
+	// elements) leads to error returns only — a test that exists but is wired the wrong way round (`p == nil && …`, a negated
+	// condition) lets the bad response through and dereferences the nil it was meant to stop
+	watched := []func(types.Type) bool{ptrTo("/peers", "Peer"), ptrTo("/hashgraph", "Root"), ptrTo("/hashgraph", "FrameEvent"), ptrTo("/hashgraph", "Event"),
+		func(t types.Type) bool {
+			m, ok := t.Underlying().(*types.Map)
+			if !ok {
+				return false
+			}
+			k, ok1 := m.Key().Underlying().(*types.Basic)
+			e, ok2 := m.Elem().Underlying().(*types.Basic)
+			return ok1 && ok2 && k.Kind() == types.String && e.Kind() == types.String
+		}}
+	for _, c := range cands {
+		var vfs []*ssa.Function
+		for f := range p.reach([]*ssa.Function{c.fn}, func(f *ssa.Function) bool { return !inModule(f) }) {
+			if inModule(f) && fnPkgPath(f) == fnPkgPath(c.fn) {
+				vfs = append(vfs, f)
+			}
+		}
+		sort.Slice(vfs, func(i, j int) bool { return vfs[i].String() < vfs[j].String() })
+		nPol := 0
+		for _, f := range vfs {
+			for _, b := range f.Blocks {
+				if len(b.Succs) != 2 {
+					continue
+				}
+				for _, sx := range b.Succs {
+					l, ok := edgeLit(b, sx)
+					if !ok {
+						continue
+					}
+					bad := false
+					what := ""
+					if x, isNil, okN := nilTest(l); okN && isNil {
+						for _, w := range watched {
+							if w(x.Type()) {
+								bad, what = true, "a nil "+x.Type().String()
+							}
+						}
+					}
+					// len(Parents) != 2 on this edge  <=>  the OTHER edge asserts equality with 2
+					for _, other := range b.Succs {
+						if other == sx {
+							continue
+						}
+						if lo, okO := edgeLit(b, other); okO {
+							if a, bb, okE := eqLit(lo); okE {
+								for _, pr := range [][2]ssa.Value{{a, bb}, {bb, a}} {
+									if lv, isLen := isLenOf(pr[0]); isLen && flowsFromField(lv, "Parents") {
+										if k, okc := intConst(pr[1]); okc && k == 2 {
+											bad, what = true, "an event whose Parents does not have two elements"
+										}
+									}
+								}
+							}
+						}
+					}
+					if !bad {
+						continue
+					}
+					nPol++
+					r.Check(errorExit(b, sx), rule, "fastForward:validated:polarity:"+f.Name()+"@"+p.ipos(b.Instrs[len(b.Instrs)-1]), p.ipos(b.Instrs[len(b.Instrs)-1]), fnName(f), "the failing edge of the shape test leads to an error return",
+						"the edge on which the response contains "+what+" does not lead to an error return: the test is wired the wrong way round (or its result dropped), the malformed response passes validation and is dereferenced")
+				}
+			}
+		}
+		if nPol == 0 {
+			r.Fail(rule, "fastForward:validated:polarity", p.ipos(c.call), fnName(c.fn), "no nil / arity test found in the validating functions")
+		}
+	}
 	for _, o := range obs {
 		ok := false
 		for _, c := range cands {
